@@ -297,7 +297,7 @@ let vfmode file =
              (* model-only line: do the hypotheses of theorem C07_pcm_seek_checked hold for this seek? *)
              (if iz s.v_hs = 1
               then Printf.printf "thmh %s %d\n" tok (if seek_hyps_h s (zi (arg ())) then 1 else 0)
-              else Printf.printf "thm %s %d\n" tok (if seek_hyps s (zi (arg ())) then 1 else if seek_hyps_e s (zi (arg ())) then 2 else 0));
+              else Printf.printf "thm %s %d\n" tok (if seek_end_hyps s (zi (arg ())) then 3 else if seek_hyps s (zi (arg ())) then 1 else if seek_hyps_e s (zi (arg ())) then 2 else 0));
              let (r, s') = pcm_seek s (zi (arg ())) in st := Some s'; show tok (iz r) (-1) time implraw
          | "pp:" -> let (r, s') = pcm_seek_page s (zi (arg ())) in st := Some s'; show tok (iz r) (-1) time implraw
          | "rs:" -> let (r, s') = raw_seek s (zi (arg ())) in st := Some s'; show tok (iz r) (-1) time implraw
@@ -313,7 +313,7 @@ let vfmode file =
                  let half = iz s.v_hs = 1 in
                  let ok = (match target with
                            | Some t -> if half then (if seek_hyps_h s (zi t) then 1 else 0)
-                                       else if seek_hyps s (zi t) then 1 else if seek_hyps_e s (zi t) then 2 else 0
+                                       else if seek_end_hyps s (zi t) then 3 else if seek_hyps s (zi t) then 1 else if seek_hyps_e s (zi t) then 2 else 0
                            | None -> 0) in
                  Printf.printf "%s %s %d %d\n" (if half then "thmh" else "thm") tok ok
                    (match target with Some t -> t | None -> -1)
